@@ -24,7 +24,7 @@ PROFILE = {'name': 'c04', 'spec': {'shapes': ['dense', 'dense', 'long_lists', 'l
 
 def plan(tier):
     return {'cases_per_shard': 330 if tier == 'quick' else 6500,
-            'time_cap_s': 45 if tier == 'quick' else 560}
+            'time_cap_s': 90 if tier == 'quick' else 560}
 
 
 def run_case(cs, ctx):
